@@ -137,7 +137,7 @@ def gen_alt(rng, idx, kinds, default_endian, zones):
             alt['idx'] = idxs
     elif kind in ('numeric', 'indirect_numeric', 'deferred_numeric'):
         alt['arg'] = gen_arg(rng, default_endian)
-        alt['valid'] = rng.random() < 0.2
+        alt['valid'] = rng.random() < 0.3
     elif kind == 'enumeration':
         keys = rng.sample(KEYS, rng.randint(1, 3))
         csz = rng.choice([2, 3, 4])
@@ -257,6 +257,24 @@ def gen_isa(rng, prof):
             if np_:
                 vs[0]['parser'] = np_          # variant 0 accepts a strict subset of what variant 1 accepts
         isa['instrs'][mn] = vs
+    if rng.random() < 0.3:
+        # an earlier variant taking a number or label, a later one taking a register in the same place: the register name
+        # must fall through to the later variant, whatever options the numeric operand has
+        free = [m for m in MNEMONICS if m not in isa['instrs']]
+        if free:
+            rg = rng.choice(REGS)
+            nk, rk = rng.choice([('numeric', 'register'), ('indirect_numeric', 'indirect_register'), ('numeric', 'register')])
+            isa['n'] += 2
+            na = {'id': f'op{isa["n"] - 1}', 'kind': nk, 'code': gen_code(rng), 'pos': 'suffix', 'arg': gen_arg(rng, default_endian, sizes=(8, 16)),
+                  'valid': rng.random() < 0.7}
+            ra = {'id': f'op{isa["n"]}', 'kind': rk, 'code': gen_code(rng, allow_none=False), 'pos': 'suffix', 'register': rg, 'dec': None}
+            if rk == 'indirect_register':
+                ra['offset'] = None
+
+            def one(alt, opc):
+                return {'opcode': (opc, 8), 'endian': None, 'suffix': None,
+                        'parser': {'count': 1, 'sets': None, 'specific': [{'ops': [alt], 'rev_arg': False, 'rev_code': False}]}}
+            isa['instrs'][free[0]] = [one(na, rng.randrange(256)), one(ra, rng.randrange(256))]
     if rng.random() < prof.get('p_macros', 0.4):
         for mn in rng.sample(MACROS, rng.randint(1, 2)):
             mvs = []
@@ -672,6 +690,11 @@ def operand_for(rng, alt, labels, addr_hint=0):
         size = alt['arg']['size']
         e = x_value(rng, rng.choice([0, 1, (1 << size) - 1, (1 << (size - 1)) - 1, 5 % (1 << size), (1 << size) if rng.random() < 0.05 else 2 % (1 << size)]),
                     labels if size >= 16 else [])
+        if rng.random() < 0.08:
+            # a register name where a number or label is expected: never accepted by this alternative
+            rg = rng.choice(REGS)
+            e = rng.choice([Txt(rg, [t_lab(rg)]), Txt(rg + '+1', [t_lab(rg), t_op('OAdd'), t_num(1)]),
+                            Txt('1+' + rg, [t_num(1), t_op('OAdd'), t_lab(rg)])])
         if k == 'indirect_numeric':
             return Txt('[' + sp(), ['OLBr']) + e + Txt(sp() + ']', ['ORBr'])
         if k == 'deferred_numeric':
